@@ -4,6 +4,7 @@ import PkgProofs.Lemmas.PyStr
 import PkgProofs.Lemmas.ScanStr
 import PkgProofs.Props.Src.SpecCompare
 import PkgProofs.Props.Src.Specifier
+import PkgProofs.Lemmas.SrcRobust
 /-!
 # Translated source of `_version_split`, `canonicalize_version`, `Specifier._compare_equal`, `_compare_not_equal`,
 `_compare_compatible` = the model (`S.versionSplit`, `V.canonicalizeVersion`, `S.compareEqual`, …)
@@ -269,8 +270,7 @@ theorem Specifier._compare_compatible_eq_model (self : PyVal) (p : Ver) (hp : WF
       cases hge : S.compareGE p spec with
       | error e => rfl
       | ok ge =>
-        cases ge
-        · rfl
-        · simp only [Except.map, ok_bind, truthy_bool, if_true, Specifier._compare_equal_eq_model self p hp]
+        cases ge <;> cases hce : S.compareEqual p (j ++ [46, 42]) <;>
+          src_simp [Specifier._compare_equal_eq_model self p hp, hce]
 
 end Src
